@@ -62,8 +62,24 @@ def proj_meta(obj, game, i=0):
     return {"times": times, "other": other}
 
 
-def build(game, shape, r, mapset=False):
-    m = new_map(game, content(game, shape, r))
+def _intify(c):
+    """the same chart with python ints for the whole-number times (int64 columns)"""
+    return {k: [{f: (int(v) if isinstance(v, float) and float(v).is_integer() and f in ("offset", "length", "bpm") else v)
+                 for f, v in row.items()} for row in rows] for k, rows in c.items()}
+
+
+def build(game, shape, r, mapset=False, variant="plain"):
+    c = content(game, shape, r)
+    if game == "sm" and shape[3]:
+        c["stops"] = [{"offset": 1250.0, "length": 500.0}]
+    if variant == "int_cols":
+        c = _intify(c)
+    m = new_map(game, c)
+    if variant == "stack_edit" and len(m.hits):
+        # history: a stacker was created earlier, then a list was edited through the list API
+        m.stack()
+        m.stack((type(m.hits),))
+        m.hits.offset += 125.0
     if game == "osu":
         from reamber.osu.lists.OsuSampleList import OsuSampleList
         from reamber.osu.OsuSample import OsuSample
@@ -144,7 +160,7 @@ def exec_rates(scn):
             out.append(dict(rec, exc=exc_name(e)))
         return res
 
-    obj = build(game, shape, r, mapset=scn.get("mapset", False))
+    obj = build(game, shape, r, mapset=scn.get("mapset", False), variant=scn.get("variant", "plain"))
     hist = scn["hist"]
     cur = obj
     for i, h in enumerate(hist):
@@ -165,7 +181,7 @@ def exec_rates(scn):
             out.append({"id": f"{rid}/compose", "op": "compose", "cls": f"{game}.compose", "game": game,
                         "exc": exc_name(e) if not isinstance(e, ProjectionError) else "Projection:" + str(e)})
     # write the rated chart and read it back
-    if game in ("osu", "qua", "sm") and shape[0] and cur is not None:
+    if game in ("osu", "qua", "sm") and shape[0] and cur is not None and not (game == "sm" and shape[3]):
         rec = {"id": f"{rid}/io", "op": "roundtrip", "cls": f"{game}.roundtrip", "game": game, "exc": "", "tol": 1000}
         try:
             back = _io(cur, game)
